@@ -76,3 +76,9 @@ ASSUME.update({
          "the translator reports which schema accessors bytesHaveSchemaLink calls, not how it uses their results (the correspondence run covers that)",
          "pkg/auth's credential checks are exercised, not modelled; auth modes that admit requests without credentials are out of scope"],
 })
+ASSUME.update({
+ "C03": ["crash model of the file system: bytes written before the last successful Sync of a file are durable, later bytes survive as an arbitrary prefix, rename and remove are atomic and ordered; directory-entry durability without fsync of the parent is assumed",
+         "the pack is modelled at record level (positions instead of byte offsets; a torn item is a header prefix or a complete header with a short body); header parsing itself is exercised by the harness (bodies containing ']' and '[x]'), not modelled; single pack file (no roll-over); StreamBlobs not modelled",
+         "the pack index is atomic per Set / CommitBatch and survives restarts (C10)",
+         "the translator reports the order of the first CommitBatch and delete calls in RemoveBlobs and whether walkPack calls Stat; how the results are used is covered by the correspondence"],
+})
